@@ -681,10 +681,11 @@ def report(ctx, case, moment, path, diffs):
         else:
             k = kind.split(":", 1)[1] if kind.startswith("raised:") else kind
             verb = "raised" if kind.startswith("raised") else "differs (" + kind + ")"
-            if case.struct == "name=dim":
-                key = "C13:name=feature-dim:%s:%s" % (ans, k)
-            elif path == "nc-codec" and case.attrs in ("True", "list-like", "empty-string", "brackets") and moment == "fresh":
+            if path == "nc-codec" and case.attrs in ("True", "list-like", "empty-string", "brackets") and moment == "fresh":
+                # the codec's treatment of literal-looking user strings is the cause whatever the structure of the input
                 key = "C13:nc-codec:user-attrs=%s:%s:%s" % (case.attrs, ans, k)
+            elif case.struct == "name=dim":
+                key = "C13:name=feature-dim:%s:%s" % (ans, k)
             else:
                 key = "C13:%s:%s:%s:%s:%s" % (case.label, moment, path, ans, k)
             what = "%s: after %s, %s of the rebuilt model %s: %s (expected: identical to the fitted model's answer)" % (where, path, name, verb, det)
